@@ -157,7 +157,9 @@ class BaseTemplateMatcher(BasePickerModel):
         mask = self._tilt_model.create_mask(shape=template.shape)
         out = pool.compute()  # rotated templates
         templates = [o * mask for o in out]
-        depth = tuple(np.ceil(np.array(templates[0].shape) / 2).astype(np.uint16))
+        # The landscape of a block lacks (template size + 1) voxels of the block: one more
+        # voxel of overlap is needed to reach the particles centered on a chunk border.
+        depth = tuple(np.ceil(np.array(templates[0].shape) / 2).astype(np.uint16) + 1)
         return {"templates": templates}, depth
 
     def _index_to_quaternions(self, argmax_indices):
